@@ -537,6 +537,7 @@ func (c *client) sendRPCToRegionClient(ctx context.Context, rpc hrpc.Call, rc hr
 // even if it doesn't appear in the clients cache.
 func (c *client) clientDown(client hrpc.RegionClient, reg hrpc.RegionInfo) {
 	downregions := c.clients.clientDown(client)
+	vhook("clientDown.removed", c, reg)
 	if reg.MarkUnavailable() {
 		reg.SetClient(nil)
 		go c.reestablishRegion(reg)
@@ -987,6 +988,7 @@ func (c *client) establishRegion(reg hrpc.RegionInfo, addr string) {
 			}
 		}
 
+		vhook("establish.located", c, reg)
 		var client hrpc.RegionClient
 		if reg == c.adminRegionInfo {
 			// admin region is used for talking to master, so it only has one connection to
@@ -1008,6 +1010,7 @@ func (c *client) establishRegion(reg hrpc.RegionInfo, addr string) {
 		dialCtx, cancel := context.WithTimeout(reg.Context(), c.regionLookupTimeout)
 		err = client.Dial(dialCtx)
 		cancel()
+		vhook("establish.dialed", c, reg)
 
 		if err == nil {
 			if reg == c.adminRegionInfo {
@@ -1019,7 +1022,9 @@ func (c *client) establishRegion(reg hrpc.RegionInfo, addr string) {
 			if err = isRegionEstablished(client, reg); err == nil {
 				// set region client so that as soon as we mark it available,
 				// concurrent readers are able to find the client
+				vhook("establish.probed", c, reg)
 				reg.SetClient(client)
+				vhook("establish.clientSet", c, reg)
 				reg.MarkAvailable()
 				return
 			} else if _, ok := err.(region.ServerError); ok {
